@@ -476,3 +476,55 @@ check("C23", "simos",
       "POSIX), validated by a conformance self-test against a real "
       "directory. Two known findings (last-leaver race, stale-table "
       "joiner).")
+
+
+# coverage added when seeded changes showed a gap (DESIGN.md section 10)
+ADDED.update({
+    "C02": "memory destinations include byte-order-prefixed integer "
+           "variables (>H >I !q <I <h).",
+    "C03": "trees whose atoms share an operand register, bodies ending in "
+           "exit(code) (the return value is observed), else-if chains of "
+           "length 2-3 (with A as Else / with Else, B as Else / with Else), "
+           "nested and sequenced.",
+    "C07": "locals with a byte-order prefix (>H >i !Q <h <I quick; all 24 "
+           "thorough) are sources and destinations of the copies too.",
+    "C08": "a further family declares byte-order-prefixed variables (>H >q "
+           "<I !i >B <Q) alone, in pairs and next to plain ones.",
+    "C10": "hash maps with 255/256/257 (thorough also 254/300/513) variables "
+           "around the one-byte key boundary; Dict operations include the "
+           "MutableMapping mix-ins popitem clear items get setdefault in.",
+    "C15": "one cancellation of a task that waits for the lock per execution "
+           "(its own CancelledError is accepted, nobody else may be "
+           "disturbed); cross-process: two terminals with their own lock "
+           "bytes and two tasks per process.",
+    "C17": "gap entries (index 0) of 1/4/8/12/13/16 bits at bit positions 0, "
+           "3 and 4.",
+    "C19": "bits are written with 0, 1, 2, 0x10, 0x80 and 0x100 (any "
+           "non-zero value sets the bit).",
+    "C20": "logical addresses start at 0 or 0x100; one (thorough: two) "
+           "operations per sequence hit an injected bus fault, and one (two) "
+           "steps start two operations at once, in both orders; the master's "
+           "slot table must hold exactly the live mappings.",
+    "C21": "user-space half: the real FastSyncGroup.run / update_devices / "
+           "roundtrip_packet / sendloop run on the virtual loop for every "
+           "layout against all 3^6 (quick) / 3^8 answer sequences of {frame "
+           "processed by the real group bytecode, frame untouched, no answer "
+           "in time}; every frame handed to the transport must have all "
+           "write datagrams disabled. Expected working counters are counted "
+           "from the terminals, not read from SterilePacket.counters.",
+    "C22": "every step is repeated with the random helper answering 0, "
+           "0xffff and 0x10000: at drop rate 0 the outcome must not depend "
+           "on it. Slow-path indices equal to the group number in their low "
+           "8/16/31 bits are among the foreign frames (10 kinds).",
+    "C25": "two allocate-first workloads (three concurrent / three "
+           "sequential find_free_address calls) judge the returned addresses "
+           "directly; every function of the random source used by "
+           "ebpfcat.ethercat is answered by the harness (mc/seams.py).",
+    "C28": "announced chunks of length 0.",
+    "C29": "formats include the native-size ones l L and the padded hI BI; "
+           "configurations also run after a history (plain values assigned "
+           "to the variables while the device was in no group; devices that "
+           "were in another group before).",
+    "C30": "every terminal set also runs after a sync group of a different "
+           "layout was laid out in the same process.",
+})
